@@ -49,6 +49,11 @@ def may_be_none(t) -> bool:
     if is_const(t, None):
         return True
     if isinstance(t, tuple) and t and t[0] == "cond":
+        c = t[1]
+        if isinstance(c, tuple) and c[0] == "cmp" and c[1] == "Is" and is_const(c[3], None):
+            # ``None if x is None else f(x)``: None exactly when x is
+            x = c[2]
+            return (may_be_none(x) and (may_be_none(t[2]) or t[2] == x)) or may_be_none(t[3])
         return may_be_none(t[2]) or may_be_none(t[3])
     if isinstance(t, tuple) and t and t[0] == "single":
         return may_be_none(t[3])
